@@ -106,7 +106,26 @@ def make_spec(r, kind, reserved):
         else:
             f['value'] = valgen.rand_val(r, r.randint(1, 5), set())
         spec.append(f)
+    # attrs: a @x.default style factory whose result depends on the instance (an earlier field)
+    if kind == 'attrs' and len(spec) >= 2 and spec[0]['default'] is None and spec[0]['factory'] is None \
+            and r.random() < 0.5:
+        f = spec[-1]
+        f.update(default=None, factory=('list', []), takes_self=True, self_dep=spec[0]['name'])
+        if r.random() < 0.5:
+            f['value'] = ('list', [spec[0]['value']])
     return spec
+
+
+def default_of(f, inst):
+    """the declared default of field f for this instance (None = no default)"""
+    if f.get('self_dep'):
+        return [getattr(inst, f['self_dep'])]
+    base = f['default'] if f['default'] is not None else f['factory']
+    return None if base is None else valgen.build(base)[0]
+
+
+def has_default(f):
+    return f['default'] is not None or f['factory'] is not None
 
 
 _counter = [0]
@@ -134,7 +153,9 @@ def build_class(kind, spec):
                 kw['default'] = valgen.build(f['default'])[0]
             elif f['factory'] is not None:
                 ft = f['factory']
-                if f['takes_self']:
+                if f.get('self_dep'):
+                    kw['default'] = attr.Factory(lambda self, dep=f['self_dep']: [getattr(self, dep)], takes_self=True)
+                elif f['takes_self']:
                     kw['default'] = attr.Factory(lambda self, ft=ft: valgen.build(ft)[0], takes_self=True)
                 else:
                     kw['default'] = attr.Factory(lambda ft=ft: valgen.build(ft)[0])
@@ -152,18 +173,33 @@ def expected_fields(kind, spec, inst):
     for f in spec:
         if not f['repr']:
             continue
-        base = f['default'] if f['default'] is not None else f['factory']
-        if base is None or valgen.build(base)[0] != getattr(inst, f['name']):
+        if not has_default(f) or default_of(f, inst) != getattr(inst, f['name']):
             out.append(f['name'])
     return out
 
 
-def extras_case(r, kind, reserved):
+def extras_cases(r, kind, reserved):
+    """one class, three instances: the generated values, then two variations (a field moved to /
+    away from its default, the first field changed) - printers must not carry anything over
+    from one instance of a class to the next"""
     spec = make_spec(r, kind, reserved)
     cls = build_class(kind, spec)
-    vals = {f['name']: valgen.build(f['value']) for f in spec}
-    inst = cls(**{k: v for k, (v, _sx) in vals.items()})
-    return spec, cls, inst, vals
+    out = []
+    for variant in range(3):
+        sp = [dict(f) for f in spec]
+        if variant >= 1:
+            for f in sp:
+                x = r.random()
+                if has_default(f) and not f.get('self_dep') and x < 0.4:
+                    f['value'] = f['default'] or f['factory']
+                elif x < 0.7:
+                    f['value'] = valgen.rand_val(r, r.randint(1, 4), set())
+            if sp[-1].get('self_dep') and r.random() < 0.6:
+                sp[-1]['value'] = ('list', [sp[0]['value']]) if variant == 1 else ('list', [spec[0]['value']])
+        vals = {f['name']: valgen.build(f['value']) for f in sp}
+        inst = cls(**{k: v for k, (v, _sx) in vals.items()})
+        out.append((sp, cls, inst, vals))
+    return out
 
 
 def main(tier):
@@ -189,15 +225,15 @@ def main(tier):
         r = rng(PROP + '/extras')
         n = 500 if tier == 'quick' else 8000
         ext = []
-        for i in range(n):
+        for i in range(n // 3):
             kind = 'dc' if i % 2 == 0 else 'attrs'
-            ext.append((kind,) + extras_case(r, kind, reserved=(i % 10 == 0)))
+            for case in extras_cases(r, kind, reserved=(i % 10 == 0)):
+                ext.append((kind,) + case)
         # model: which fields are shown (generated selection function), then the text of the call
         reqs = [valgen.uni_request()]
         for kind, spec, cls, inst, vals in ext:
             for f in spec:
-                base = f['default'] if f['default'] is not None else f['factory']
-                ne = base is not None and valgen.build(base)[0] != getattr(inst, f['name'])
+                ne = has_default(f) and default_of(f, inst) != getattr(inst, f['name'])
                 hd, hf = f['default'] is not None, f['factory'] is not None
                 if kind == 'dc':
                     reqs.append('(dcshow dc %d %d %d %d %d)' % (f['repr'], not hd, not hf, ne, ne))
@@ -223,8 +259,11 @@ def main(tier):
         edis = 0
         reserved_hits = 0
         open_f = run.open_findings()
+        first_spec = {}
         for (kind, spec, cls, inst, vals), names, cfg, mline in zip(ext, model_names, cfgs, texts):
             run.count(1)
+            earlier = first_spec.get(cls)
+            first_spec.setdefault(cls, spec)
             text, ws = PC.impl_pformat(inst, cfg)
             mtext = from_cps(mline[2:]) if mline.startswith('R ') else mline
             want = expected_fields(kind, spec, inst)
@@ -242,8 +281,7 @@ def main(tier):
                     elif got != want:
                         msg = 'printed fields %r, expected %r (repr enabled and no default or value != default, in declaration order)' % (got, want)
                     else:
-                        hidden_ok = all(f['repr'] or ((f['default'] or f['factory']) is not None and
-                                                      valgen.build(f['default'] or f['factory'])[0] == getattr(inst, f['name']))
+                        hidden_ok = all(f['repr'] or (has_default(f) and default_of(f, inst) == getattr(inst, f['name']))
                                         for f in spec)
                         if hidden_ok:
                             back = PC.eval_text(text)
@@ -262,7 +300,10 @@ def main(tier):
                     run.sample({'disagreement': {'kind': kind, 'impl': text, 'model': mtext, 'model_fields': names,
                                                  'expected_fields': want}})
             if msg and len(run.violations) < 3:
+                js = lambda sp: [{k2: (PC.jsonable(v) if k2 in ('default', 'factory', 'value') else v)
+                                  for k2, v in f.items()} for f in sp]
                 run.violation({'kind': 'extras-oracle', 'detail': msg, 'class_kind': kind,
+                               'earlier_spec': js(earlier) if earlier is not None else None,
                                'spec': [{k2: (PC.jsonable(v) if k2 in ('default', 'factory', 'value') else v)
                                          for k2, v in f.items()} for f in spec], 'cfg': cfg, 'impl': text})
         if reserved_hits:
@@ -301,6 +342,9 @@ def replay(path):
     if 'spec' in p:
         spec = [{k: (PC.unjson(v) if k in ('default', 'factory', 'value') else v) for k, v in f.items()} for f in p['spec']]
         cls = build_class(p['class_kind'], spec)
+        if p.get('earlier_spec'):
+            e = [{k: (PC.unjson(v) if k in ('default', 'factory', 'value') else v) for k, v in f.items()} for f in p['earlier_spec']]
+            PC.impl_pformat(cls(**{f['name']: valgen.build(f['value'])[0] for f in e}), p['cfg'])
         inst = cls(**{f['name']: valgen.build(f['value'])[0] for f in spec})
         text, ws = PC.impl_pformat(inst, p['cfg'])
         want = expected_fields(p['class_kind'], spec, inst)
